@@ -216,11 +216,23 @@ PROPS = {
                 "journal is parsed before/after (write count + batch content replayed against the Lean write plan), plus one "
                 "crash image per cut point (journal truncated after write k, reopened with goleveldb and NewLevelDBManager: raw "
                 "key space must equal the state before or after; frontier pointer / keys / undo-redo records must agree; the "
-                "same and a competing transaction are re-delivered and compared with crash-free runs); distinct = distinct lines",
-        "partial": "process death is reproduced at the granularity of leveldb writes (one journal record per Put/Delete/Write); "
-                   "durability below leveldb (fsync, power loss, torn journal records) is leveldb's own recovery and is trusted; "
+                "same and a competing transaction are re-delivered and compared with crash-free runs); and the images of a process "
+                "death INSIDE a write: goleveldb hands a journal record to the file in 32 KiB blocks with one write(2) each, so per "
+                "operation the journal is also cut at every block boundary inside the operation's bytes (a sample of the boundaries "
+                "for records of more than 6 blocks), around one boundary (inside the 7-byte chunk header, header without payload, "
+                "block write short by 1-3 bytes, inside the chunk), inside the first and the last chunk, and at an arbitrary byte "
+                "offset; one image in five additionally gets a tail of zeros or arbitrary bytes (to the end of the block / a few bytes "
+                "/ into the following blocks); every such image is opened FIRST by the real NewLevelDBManager (as a restarting node "
+                "does - it must open), its raw key space must equal the state before or after, the operation is re-delivered on the "
+                "recovered image (all block-boundary images and a third of the others) and the bookkeeping checks run on a quarter; "
+                "a quarter of the commits carry 12-80 KiB of values (records of 2-8 blocks), one in ten a few hundred KiB, one "
+                "sequence in six a commit of megabytes that is then rolled back; distinct = distinct lines",
+        "partial": "process death is reproduced at the granularity of the write(2) calls of goleveldb's journal writer (record "
+                   "boundaries and the 32 KiB block boundaries inside a record) plus short writes and file-system tails; what "
+                   "goleveldb does with a torn record is its own recovery code, executed for real on every image but not modelled; "
+                   "fsync / power-loss reordering between files is outside the property (process death); "
                    "the node-level commit (chain.AddMomentumTransaction) adds no further leveldb write to the ledger database",
-        "assumptions": ["goleveldb: one journal record per write call, handed to the OS before the call returns; a batch is atomic w.r.t. process death"],
+        "assumptions": ["goleveldb: one journal record per write call, handed to the OS (block by block) before the call returns; a batch is atomic w.r.t. process death"],
     },
     "C06": {
         "module": "ZenonVerif.Props.C06",
